@@ -1064,6 +1064,7 @@ def run(chk):
     if os.path.exists(corpus):
         for c in json.load(open(corpus)):
             replay_case(chk, c)
+    run_in_region_direct(chk, 400 if q else 6000)
     run_parse_level(chk, ctxs + ctxs_ind, 500 if q else 6000)
     run_table_level(chk, ctxs + ctxs_ind, 120 if q else 1500)
     run_file_level(chk, ctxs, 16 if q else 150, 30 if q else 60, thorough=not q)
@@ -1072,6 +1073,48 @@ def run(chk):
     if not q:
         shipped_side_conditions(chk)
         run_shipped(chk)
+
+
+def run_in_region_direct(chk, n):
+    """sam._in_region called directly on record-like objects (contig name, mapped or not, start, end or None) against
+    InRegionProofs.in_region_named: the whole test, including the comparison of contig names the pileup model takes as a flag"""
+    from aldy.sam import _in_region
+    from aldy.common import GRange
+    rng = chk.rng
+
+    class Rec:
+        pass
+    cases = []
+    for k in range(n):
+        chrom = rng.choice(["20", "1", "X", "22", "7"])
+        prefix = rng.choice(["", "", "chr"])
+        want = prefix + chrom
+        name = rng.choice([want] * 5 + ["1" + want, want + "1", chrom, "chr" + chrom, "chr" + want, want[1:] or "2", want[:-1] or "Y", "M" + chrom,
+                                        want.upper(), "21"])
+        b0 = rng.randint(100, 5000)
+        b1 = b0 + rng.randint(0, 3000)
+        st = rng.choice([b0, b1, b0 - 1, b1 + 1, b0 - rng.randint(0, 300), rng.randint(b0, b1 + 1), b1 + rng.randint(0, 300), rng.randint(0, 9000)])
+        en = None if rng.random() < 0.08 else st + rng.choice([0, 1, 1, rng.randint(1, 300), max(0, b0 - st), max(0, b0 - st - 1), max(0, b0 - st + 1)])
+        unmapped = rng.random() < 0.08
+        cases.append((prefix, chrom, name, unmapped, st, en, b0, b1))
+    terms = [f"o_bool (in_region_named {cstr(p)} {cstr(c)} {cstr(nm)} {cbool(u)} {cz(st)} {common.copt(en, cz)} {cz(b0)} {cz(b1)})"
+             for p, c, nm, u, st, en, b0, b1 in cases]
+    vals = common.coq_eval(IMPORTS + ["InRegionProofs"], terms) if chk.model_available() else None
+    for k, (p, c, nm, u, st, en, b0, b1) in enumerate(cases):
+        r = Rec()
+        r.reference_id = -1 if u else 0
+        r.reference_name = None if u else nm
+        r.reference_start, r.reference_end = st, en
+        im = bool(_in_region(GRange(c, b0, b1), r, p))
+        exact = (not u) and nm == p + c and en is not None and (st <= b0 <= en or b0 <= st <= b1)       # the statement, spelled out
+        case = {"prefix": p, "chr": c, "contig": nm, "unmapped": u, "start": st, "end": en, "region": [b0, b1]}
+        chk.case("in-region-direct", case, nontrivial=(nm != p + c and not u) or en is not None, sample=case)
+        chk.count("in-region-direct", "same-name" if nm == p + c else "name-ends-with" if nm.endswith(p + c) else "name-starts-with" if nm.startswith(p + c) else "other-name")
+        if im != exact:
+            chk.fail("ineligible", {"stream": "in-region-direct", "contig": "exact" if nm == p + c else "similar"}, case,
+                     f"a record on contig {nm!r} [{st}, {en}] against {p + c!r} [{b0}, {b1}]: belongs to the locus = {exact}", f"_in_region = {im}")
+        if vals is not None and bool(vals[k]) != im:
+            chk.mismatch("in_region_named", case, bool(vals[k]), im)
 
 
 def shipped_side_conditions(chk):
